@@ -7,6 +7,7 @@ package main
 // feasible and only the other side is asked of the solver.
 
 import (
+	"strconv"
 	"fmt"
 	"go/types"
 	"sort"
@@ -35,6 +36,27 @@ type Violation struct {
 	Msg      string            `json:"msg,omitempty"`
 	Vector   map[string]uint64 `json:"vector"`
 	Trace    []string          `json:"trace,omitempty"`
+	// Alternates: further witnesses of the same signature, each contributing a choice value (a small input
+	// value) no earlier witness had. The driver replays them when the first witness does not reproduce
+	// natively (for example because it used a stand-in in a way the real component does not behave).
+	Alternates []map[string]uint64 `json:"alternates,omitempty"`
+	seenKV     map[string]bool
+}
+
+func (v *Violation) noteKV(vec map[string]uint64) (fresh bool) {
+	if v.seenKV == nil {
+		v.seenKV = map[string]bool{}
+	}
+	for k, x := range vec {
+		if x < 16 {
+			kv := k + "=" + strconv.FormatUint(x, 10)
+			if !v.seenKV[kv] {
+				v.seenKV[kv] = true
+				fresh = true
+			}
+		}
+	}
+	return fresh
 }
 
 func (v *Violation) Signature() string {
@@ -482,8 +504,11 @@ func (ex *Explorer) addViolation(v *Violation) {
 	ex.mu.Lock()
 	sig := v.Signature()
 	ex.violationCount[sig]++
-	if _, ok := ex.violations[sig]; !ok {
+	if first, ok := ex.violations[sig]; !ok {
+		v.noteKV(v.Vector)
 		ex.violations[sig] = v
+	} else if len(first.Alternates) < 12 && first.noteKV(v.Vector) {
+		first.Alternates = append(first.Alternates, v.Vector)
 	}
 	ex.mu.Unlock()
 }
